@@ -45,6 +45,10 @@ def pick_table(V, sos, N, pattern_seed, density):
         keys = all_ngrams(V, sos, n)
         if pattern_seed == "full":
             sel = keys
+        elif pattern_seed == "sos_backoff":
+            # every unigram (incl. an out-of-vocabulary sos with its back-off weight) is listed, no higher-order n-gram has sos in its context:
+            # queries at the first positions must back off through the sos entries
+            sel = keys if n == 1 else [k for k in keys if sos not in k[:-1]]
         else:
             sel = [k for k in keys if rng.random() < density]
             if n == N and not sel:
@@ -248,7 +252,7 @@ META = dict(
         "offsets/ids, found/clobber masks, back-off accumulation) is executed for scalar idx, per-element idx, all-at-once, chunked, and after "
         "state_dict -> fresh instance -> load_state_dict; each output cell is asserted equal to the back-off recursion evaluated directly on the "
         "dictionary (ite over all contexts), histories left-padded with sos, absent unigrams -inf."),
-    bounds=dict(quick="order N in 1..3, V=2 (V=3 for N=2), sos inside/outside the vocabulary, 3 sparsity patterns per shape plus the full table, histories T<=3, batch 2, chunk sizes 1..2",
+    bounds=dict(quick="order N in 1..3, V=2 (V=3 for N=2), sos inside/outside the vocabulary, 3 sparsity patterns per shape plus the full table and the pattern 'all unigrams, no n-gram with sos in its context', histories T<=3, batch 2, chunk sizes 1..2",
                 thorough="(both tiers: one dense bigram table over 17 tokens, whose offsets need 16 bits, through the save/load path); order N in 1..4, V in {2,3}, 8 patterns per shape at densities 0.3/0.6/1, T<=4, chunk sizes 1..T+1, all per-element idx vectors"),
     assumptions=["table values on the quarter grid (log-probabilities in [-4,0], back-off weights in [-4,2]); finite listed values (explicitly listed -inf entries are not enumerated)",
                  "history tokens inside the vocabulary (sos only as left padding)", "float32 sums of <= N grid values are exact"],
@@ -281,6 +285,8 @@ def tasks(tier):
             if N > 1:
                 for idxs in ([0, T], [T - 1, 1]) if q else [list(x) for x in itertools.product(range(T + 1), repeat=2)]:
                     ts.append(task(PROP, M_, "LookupLMH", T=T, mode="idx_vec", idxs=idxs, **base))
+    for V, sos, N in ((2, -1, 2), (2, 5, 3)) if q else ((2, -1, 2), (2, 5, 3), (3, -1, 2), (2, 0, 2), (2, -1, 4)):
+        ts.append(task(PROP, M_, "LookupLMH", V=V, sos=sos, N=N, pattern="sos_backoff", density=1.0, Bsz=2, T=2 if q else 3, mode="full"))
     # a table large enough for the offsets buffer to need 16 bits (an offset above 255): save -> fresh instance -> load must not narrow it
     ts.append(task(PROP, M_, "LookupLMH", V=17, sos=0, N=2, pattern="full", density=1.0, Bsz=1, T=1, mode="reload", time_limit=1200))
     return ts
